@@ -226,10 +226,12 @@ def run_driver(chk, drv, cases, parts):
         with open(cf, "w") as f:
             for c in chunks[ix]:
                 f.write(json.dumps(c) + "\n")
-        rc, o = V.run([drv, "-cases", cf, "-out", of, "-watchdog", "120"], timeout=3000)
-        if rc != 0:
-            raise V.Inconclusive("c13drv failed rc=%s: %s" % (rc, o[-1500:]))
-        return V.read_jsonl(of)
+        for attempt in (1, 2):
+            rc, o = V.run([drv, "-cases", cf, "-out", of, "-watchdog", "120"], timeout=3000)
+            if rc == 0:
+                return V.read_jsonl(of)
+            # e.g. a node could not listen on the port reserved for it (log.Fatalf in NewCRDT): once more
+        raise V.Inconclusive("c13drv failed rc=%s: %s" % (rc, o[-1500:]))
 
     lines = []
     with concurrent.futures.ThreadPoolExecutor(max_workers=parts) as ex:
